@@ -48,7 +48,10 @@ func c02Combo(name string, cat cbc.Code, rich bool) *Combo {
 			// thorough: a wider covering set (fully symbolic percentage values make every query a product of two
 			// unknowns: that bound left 68 obligations unknown after 30 minutes and is not claimed)
 			pv = []int64{210, 100, 55}[vrt.Choice(name+".pctv", 3)]
-			sv = []int64{52, 14}[vrt.Choice(name+".surv", 2)]
+			sv = 52
+			if rich && vrt.Choice(name+".surv", 2) == 1 {
+				sv = 14
+			}
 		} else {
 			pv, sv = 210, 52
 			if !rich || vrt.Choice(name+".pctv", 2) == 1 {
@@ -153,20 +156,27 @@ func H_C02_Partition() {
 	for k := 0; k < nl; k++ {
 		name := "l" + string(rune('0'+k))
 		texp := zero.Exp() + 2 // quick: first line at currency+2 decimals, the others at currency precision
-		if vrt.Thorough() {
-			texp = zero.Exp() + 2*uint32(vrt.Choice(name+".texp", 2))
-		} else if k > 0 {
+		if k > 0 {
 			texp = zero.Exp()
 		}
 		total := num.MakeAmount(vrt.Int64In(name+".total", -c02Dom, c02Dom), texp)
 		l := &c02Line{total: total}
-		ca := c02Combo(name+".a", "A", k < 2) // a third line (thorough) has no extension / country variety
-		if k >= 2 && ca.retained {
-			ca.retained = false // (a non-rich combo of category A is an ordinary one)
+		var ca *Combo
+		if k < 2 {
+			ca = c02Combo(name+".a", "A", true)
+		} else {
+			// a third line (thorough tier): a plain 10 % row with or without surcharge, which either joins an
+			// existing group or forms a new one
+			p := num.MakePercentage(100, 3)
+			ca = &Combo{Category: "A", Percent: &p}
+			if vrt.Choice(name+".a.hassur", 2) == 1 {
+				s := num.MakePercentage(14, 3)
+				ca.Surcharge = &s
+			}
 		}
 		l.taxes = append(l.taxes, ca)
 		var cb *Combo
-		if (k > 0 || vrt.Thorough()) && vrt.Choice(name+".second", 2) == 1 {
+		if k == 1 && vrt.Choice(name+".second", 2) == 1 {
 			cb = c02Combo(name+".b", "B", false)
 			l.taxes = append(l.taxes, cb)
 		}
